@@ -480,4 +480,39 @@ PROPS = {
         "level_note": "Trusted: the emitter uses only API present in every build; the corpus "
                       "generator is deterministic in (seed, case).",
     },
+    "C17": {
+        "special": "c17",
+        "engine": "derive_gen",
+        "cases": {"quick": (1, 150), "thorough": (8, 400)},
+        "rule": "bin/derive_gen.py emits, from a seed, a crate of struct/enum definitions carrying "
+                "#[derive(Bpaf)] (implicit and explicit short/long/env names, kebab-case "
+                "conversion, single-letter names, bool/()/Option/Vec/plain fields, explicit "
+                "argument/positional/switch/flag/req_flag consumers, turbofish, "
+                "fallback/guard/optional/many/some/count/catch/hide/hide_usage/group_help, doc "
+                "comments as help, descr/header/footer blocks, version, tuple structs, unit "
+                "variants, field variants, command variants with custom names and aliases, skipped "
+                "variants) together with the hand-written combinator equivalent produced by an "
+                "independent implementation of the documented rules. The crate is compiled against "
+                "/repo and both parsers of every type are run on the same vectors (valid lines, "
+                "omissions, duplicates, bad values, wrong-case / underscore / truncated names, "
+                "help, version); value (Debug + PartialEq), failure class and text must agree. "
+                "evaluations = run_inner calls (two per vector); distinct_nontrivial = distinct "
+                "(type, vector) pairs.",
+        "assumptions": [
+            "The hand-written side implements the rules as documented (src/params.rs 'Derive "
+            "usage', _documentation::_2_derive_api), not the macro's source.",
+            "Annotation combinations the macro rejects at compile time are not generated; a crate "
+            "that fails to compile makes the check inconclusive, not violated.",
+            "bpaf is built from /repo's working tree (debug profile, overflow checks on).",
+        ],
+        "must_observe": ["types", "structs", "enums", "outcome:value", "outcome:stdout",
+                         "outcome:stderr"],
+        "technique": "runtime monitoring: differential oracle between two real parsers (derive "
+                     "macro output vs independently written combinators) over generated types and "
+                     "vectors",
+        "level_text": "Held on the generated family observed: every derived parser agreed with "
+                      "its documented hand-written equivalent on every vector.",
+        "level_note": "Trusted: the generator's independent translation of the documented rules; "
+                      "rustc and the proc-macro expansion are part of the system under test.",
+    },
 }
